@@ -5,7 +5,7 @@ WP close, step 5: THE WORLD — every object the composed functions use is the m
     `[lo, hi)` with `hi ≤ bnd ≤ 2^64` (the C++ type of `stop` is `uint64_t`; beyond, the defining filter only makes the function total);
   * `T.t`, `T.hardEnv`, `T.dEnv`: `realNT` / `realHardEnv` / `realDEnv` = generate_primes, PiTable, FactorTable, FactorTableD, phi_vector by the
     C17 constructor models over that generator (step 4);
-  * `T.it`: `It.realIter (It.coreEnv …)` = `primesieve::iterator` (model of WP iter) over the same sieving core (step 2);
+  * `T.it`: `It.realIter (It.coreEnvTo … bnd)` = `primesieve::iterator` (model of WP iter) over the same sieving core (step 2);
   * `T.lc`: the generated load-balancer constants; `T.S`: the reference sieve reading the constructor-built prime table (the bit-exact
     `class Sieve` meets `SieveSpec` only for segments with `seg/30*8 < 2^32`, `TablesOK.sieve` asks every segment — see notes);
   * `phi`: `phiReal` over `realTop` = phi.cpp with the real PhiTiny tables, the real PiTable constructor, the real `pix_upper` table branch.
